@@ -2728,6 +2728,22 @@ impl ModuleGraph {
     })
   }
 
+  /// The redirect recorded for a specifier, unless the specifier has an entry
+  /// of its own. An entry is what its specifier stands for even when the
+  /// redirects list the specifier as well (an error recorded on a member of
+  /// a redirect chain, or a module the loader reported under a specifier
+  /// that a lockfile still redirects): walking the graph yields that entry,
+  /// so the lookups have to stop there too.
+  fn redirect_of(
+    &self,
+    specifier: &ModuleSpecifier,
+  ) -> Option<&ModuleSpecifier> {
+    match self.redirects.get(specifier) {
+      Some(to) if !self.module_slots.contains_key(specifier) => Some(to),
+      _ => None,
+    }
+  }
+
   /// Resolve a specifier from the module graph following any possible redirects
   /// returning the "final" module.
   pub fn resolve<'a>(
@@ -2736,13 +2752,13 @@ impl ModuleGraph {
   ) -> &'a ModuleSpecifier {
     const MAX_REDIRECTS: usize = 10;
     let mut redirected_specifier = specifier;
-    if let Some(specifier) = self.redirects.get(specifier) {
+    if let Some(specifier) = self.redirect_of(specifier) {
       // only allocate if there's a redirect
       let mut seen = HashSet::with_capacity(MAX_REDIRECTS);
       seen.insert(redirected_specifier);
       seen.insert(specifier);
       redirected_specifier = specifier;
-      while let Some(specifier) = self.redirects.get(redirected_specifier) {
+      while let Some(specifier) = self.redirect_of(redirected_specifier) {
         if !seen.insert(specifier) {
           log::warn!(
             "An infinite loop of redirections detected.\n  Original specifier: {specifier}"
